@@ -479,10 +479,19 @@ fn env_rec(w: &mut Writer, seed: u64, hist: &mut Vec<EnvCall>, depth_left: usize
 // ------------------------------------------------------------------------------------------
 
 fn env_scripted(w: &mut Writer, seed: u64, tick: u32, start: u64, ss: u64, calls: &[EnvCall]) {
+    env_scripted_from(w, seed, tick, start, ss, calls, 1)
+}
+
+/// only the complete sequence is written as a trace (not every prefix)
+fn env_scripted_last(w: &mut Writer, seed: u64, tick: u32, start: u64, ss: u64, calls: &[EnvCall]) {
+    env_scripted_from(w, seed, tick, start, ss, calls, calls.len())
+}
+
+fn env_scripted_from(w: &mut Writer, seed: u64, tick: u32, start: u64, ss: u64, calls: &[EnvCall], first: usize) {
     ENV_TICK.with(|s| s.set(tick));
     ENV_START.with(|s| s.set(start));
     STEP_SIZE.with(|s| s.set(ss));
-    for k in 1..=calls.len() {
+    for k in first.max(1)..=calls.len() {
         let hist = &calls[..k];
         let r = crate::util::subject(|| {
             let mut e = env_build(seed, &hist[..k - 1]);
@@ -513,6 +522,76 @@ fn env_scripted(w: &mut Writer, seed: u64, tick: u32, start: u64, ss: u64, calls
     ENV_TICK.with(|s| s.set(TICK));
     ENV_START.with(|s| s.set(0));
     STEP_SIZE.with(|s| s.set(100));
+}
+
+/// one long call sequence written as ONE trace (only the final state is compared; the driver
+/// reads nothing in between): thresholds on the number of instructions waiting for a step
+fn env_bulk(w: &mut Writer, seed: u64, tick: u32, ss: u64, calls: &[EnvCall]) {
+    ENV_TICK.with(|s| s.set(tick));
+    STEP_SIZE.with(|s| s.set(ss));
+    let r = crate::util::subject(|| {
+        let mut e = env_new(seed);
+        let mut calls_json = Vec::with_capacity(calls.len());
+        let mut last = (Value::Null, None);
+        for c in calls {
+            let nb = e.env.get_orders().len() as u32;
+            calls_json.push(env_call_json(c, 100 + nb));
+            last = env_apply(&mut e, c);
+        }
+        (calls_json, last, env_state(&e))
+    });
+    if let Ok((calls_json, (ret, exc), st)) = r {
+        let id = w.n;
+        w.n += 1;
+        w.calls += calls.len() as u64;
+        let line = json!({"id": id, "kind": "env", "bulk": true, "seed": seed, "tick": tick, "start": 0, "step_size": ss, "trading": true, "calls": calls_json, "exp": {"ret": ret, "exc": exc, "state": st, "drain": Value::Null}});
+        writeln!(w.f, "{}", line).unwrap();
+    }
+    ENV_TICK.with(|s| s.set(TICK));
+    STEP_SIZE.with(|s| s.set(100));
+}
+
+fn scripted_bulk_sets(w: &mut Writer) {
+    // more than 2^16 instructions waiting for one step, twice
+    let mut calls: Vec<EnvCall> = Vec::new();
+    for i in 0..66_000u32 {
+        calls.push(EnvCall::Place { bid: i % 2 == 0, vol: 1 + i % 3, price: Some(if i % 2 == 0 { 2 * TICK } else { 4 * TICK }) });
+    }
+    calls.push(EnvCall::Step);
+    for i in 0..33_000usize {
+        calls.push(EnvCall::Modify { id: 2 * i, price: None, vol: Some(1) });
+        calls.push(EnvCall::Cancel { id: 2 * i + 1 });
+    }
+    calls.push(EnvCall::Place { bid: true, vol: 5, price: None });
+    calls.push(EnvCall::Step);
+    env_bulk(w, 9, TICK, 1_000_000, &calls);
+}
+
+/// many distinct populated price levels per side, for tick sizes above 1 too
+fn scripted_ladder_sets(w: &mut Writer) {
+    for (tick, n) in [(1u32, 40u32), (2, 40), (5, 36), (2, 12)] {
+        let centre = 1000 * tick;
+        let mut calls: Vec<EnvCall> = Vec::new();
+        for i in 0..n {
+            calls.push(EnvCall::Place { bid: true, vol: 1 + (i * 3) % 7, price: Some(centre - (1 + i) * tick) });
+            calls.push(EnvCall::Place { bid: false, vol: 2 + (i * 5) % 7, price: Some(centre + (1 + i) * tick) });
+            if i % 4 == 3 {
+                calls.push(EnvCall::Step);
+            }
+        }
+        calls.push(EnvCall::Step);
+        // slide the published window: cancel the touch orders
+        for k in 0..6usize {
+            calls.push(EnvCall::Cancel { id: 2 * k });
+            calls.push(EnvCall::Cancel { id: 2 * k + 1 });
+            calls.push(EnvCall::Step);
+        }
+        // only the traces that end with a step are interesting (and keep the number of traces low)
+        let ends: Vec<usize> = (1..=calls.len()).filter(|k| matches!(calls[k - 1], EnvCall::Step)).collect();
+        for k in ends {
+            env_scripted_last(w, 60 + tick as u64, tick, 0, 100, &calls[..k]);
+        }
+    }
 }
 
 fn ob_scripted(w: &mut Writer, tick: u32, calls: &[ObCall]) {
@@ -781,6 +860,7 @@ pub fn c18(tier: &str) -> i32 {
     scripted_env_sets(&mut w);
     scripted_ob_sets(&mut w);
     scripted_trading_off_sets(&mut w);
+    scripted_bulk_sets(&mut w);
     w.f.flush().unwrap();
     let n_total = w.n;
     out.set("states", json!(n_total));
@@ -862,6 +942,7 @@ pub fn c19(tier: &str) -> i32 {
     env_rec(&mut w, 3, &mut deep, if t { 4 } else { 3 }, false, false, 31, 3);
     let _ = n_deep;
     scripted_env_sets(&mut w);
+    scripted_ladder_sets(&mut w);
     w.f.flush().unwrap();
     out.set("states", json!(w.n));
     drop(w);
